@@ -19,7 +19,7 @@ from .report import Check, finish
 PROPS = [f"C{i:02d}" for i in range(1, 21)]
 
 
-def run_property(prop: str, repo: str, tier: str, write_evidence: bool = True) -> int:
+def run_property(prop: str, repo: str, tier: str, write_evidence: bool = True, verbose: bool = False) -> int:
     t0 = time.time()
     try:
         mod = importlib.import_module(f"balmlint.rules.{prop.lower()}")
@@ -30,6 +30,9 @@ def run_property(prop: str, repo: str, tier: str, write_evidence: bool = True) -
         prog = Program(repo)
         ck = Check(prop, prog)
         mod.run(ck)
+        if verbose:
+            for o in ck.obs:
+                print(f"  {'ok ' if o.ok else 'BAD'} {o.rule} {o.where.replace(repo, '')}: {o.detail[:150]}")
         extra = {}
         if tier == "thorough":
             from . import selftest
@@ -57,6 +60,7 @@ def main(argv=None) -> int:
     c.add_argument("--thorough", action="store_true")
     c.add_argument("--repo", default=os.environ.get("BALMLINT_REPO", "/repo"))
     c.add_argument("--no-evidence", action="store_true")
+    c.add_argument("-v", "--verbose", action="store_true")
     a = sub.add_parser("all")
     a.add_argument("--repo", default=os.environ.get("BALMLINT_REPO", "/repo"))
     a.add_argument("--no-evidence", action="store_true")
@@ -68,7 +72,7 @@ def main(argv=None) -> int:
     args = ap.parse_args(argv)
     if args.cmd == "check":
         tier = "thorough" if args.thorough or os.environ.get("VERIF_TIER") == "thorough" else "quick"
-        return run_property(args.prop.upper(), args.repo, tier, not args.no_evidence)
+        return run_property(args.prop.upper(), args.repo, tier, not args.no_evidence, args.verbose)
     if args.cmd == "all":
         rc = 0
         for p in PROPS:
